@@ -29,7 +29,7 @@ RULE = ("step: every UTC-offset transition 2000-01-01..2037-12-31 of every zone 
 ASSUMPTIONS = ["the hourly data class builds whole local days of on-the-hour instants; windows are built the same way (pandas date_range over local wall-clock days)",
                "the second occurrence of a repeated hour may carry any value between its neighbours' slots (it is synthesised)"]
 REQUIRED_REACH = {"step.transitions": 15000, "step.ok": 14000, "e2e.predict_judged": 40, "e2e.rows": 50000, "e2e.span_with_transition": 10,
-                  "e2e.finiteness_rows": 2000, "e2e.zone_pairs_in_one_process": 2, "e2e.frame_without_a_modelable_row": 6, "e2e.frame_with_exactly_one_unmodelable_row": 30, "e2e.daily_rows_at_fixed_instants_24h_apart": 8}
+                  "e2e.finiteness_rows": 2000, "e2e.zone_pairs_in_one_process": 2, "e2e.frame_without_a_modelable_row": 6, "e2e.frame_with_exactly_one_unmodelable_row": 30, "e2e.daily_rows_at_fixed_instants_24h_apart": 8, "e2e.imported_2_0_model_judged": 20}
 LO, HI = dt.datetime(2000, 1, 1), dt.datetime(2038, 1, 1)
 
 VIOL = []
@@ -321,6 +321,52 @@ def e2e_case(spec, keys):
     return n
 
 
+def imported_case(spec, keys):
+    """daily models imported from legacy (2.0) documents (baseline timezone 'UTC' by construction): one row per timestamp, finite exactly on
+    the rows with a finite temperature (and usage, when supplied)"""
+    import json
+    import opendsm.eemeter as em
+    from vf import dailybuild as B
+    rng = rng_for(spec["seed"], ID, spec["n"])
+    n = 0
+    for j, kind2 in enumerate(B.KINDS_2_0):
+        doc2 = B.draw_2_0_doc(rng, kind2)
+        m = em.DailyModel.from_2_0_dict(doc2) if j % 2 else em.DailyModel.from_2_0_json(json.dumps(doc2))
+        for variant in ("plain", "no-usage", "gaps", "single-gap", "no-temperature-at-all"):
+            df = FT.daily_reporting_df(rng, "UTC", "2019-0%d-01" % (1 + j), int(rng.choice([1, 2, 40, 365])), with_observed=(variant != "no-usage"))
+            if variant == "gaps" and len(df) > 5:
+                df.iloc[rng.choice(len(df), size=max(1, len(df) // 10), replace=False), 0] = np.nan
+                df.iloc[int(rng.integers(0, len(df))), 0] = np.inf
+            if variant == "single-gap" and len(df) > 3:
+                df.iloc[int(rng.integers(1, len(df) - 1)), 0] = np.nan
+            if variant == "no-temperature-at-all":
+                df["temperature"] = np.nan
+            try:
+                rd = em.DailyReportingData(df, is_electricity_data=True)
+                frame = rd.df
+                p = m.predict(rd)
+            except Exception as e:
+                add("predict-raised:daily-imported-2.0:%s" % type(e).__name__, "%s model, %s frame of %d rows raised %s: %s" % (kind2, variant, len(df), type(e).__name__, str(e)[:160]), variant=variant)
+                continue
+            I.reach("e2e.predict_judged")
+            I.reach("e2e.imported_2_0_model_judged")
+            I.reach("e2e.rows", len(p))
+            n += 1
+            if not p.index.equals(frame.index):
+                add("prediction-index-differs-from-data:daily", "imported %s model, %s frame: index differs from the data object's frame" % (kind2, variant), variant=variant)
+                continue
+            y = p["predicted"].to_numpy(dtype=float)
+            exp = np.isfinite(frame["temperature"].to_numpy(dtype=float))
+            if "observed" in frame.columns and variant != "no-usage":
+                exp &= np.isfinite(frame["observed"].to_numpy(dtype=float))
+            I.reach("e2e.finiteness_rows", len(y))
+            if not np.array_equal(np.isfinite(y), exp):
+                i = int(np.argmax(np.isfinite(y) != exp))
+                add("daily-prediction-finiteness-pattern:daily", "imported %s model, %s frame: row %s predicted=%r temperature=%r" % (kind2, variant, p.index[i], y[i], frame["temperature"].iloc[i]), variant=variant)
+            keys.add("imported|%s|%s" % (kind2, variant))
+    return n
+
+
 MIDNIGHT_ZONES = ["America/Havana", "America/Santiago", "Africa/Cairo", "America/Asuncion", "Asia/Beirut", "Asia/Amman", "America/Sao_Paulo", "Asia/Damascus"]
 
 
@@ -352,6 +398,9 @@ def gen_cases(tier, seed):
     for zs in pairs:
         cases.append(dict(kind="e2e-pair", family="hourly:default", zones=zs, tz=zs[0], n=k, timeout=3000))
         k += 1
+    for i in range(2 if q else 12):
+        cases.append(dict(kind="imported", family="daily:imported-2.0", tz="UTC", n=k, timeout=1500))
+        k += 1
     dfam = ["daily:current", "billing", "daily:legacy", "caltrack"]
     for i in range(4 if q else 40):
         cases.append(dict(kind="e2e", family=dfam[i % 4] if (q or i % 8) else "caltrack", tz=(zones_h + MIDNIGHT_ZONES)[i % (len(zones_h) + (0 if q else len(MIDNIGHT_ZONES)))], n=k, timeout=3000))
@@ -375,6 +424,9 @@ def run_case(spec):
     if spec["kind"] == "step":
         n, h = step_case(spec, keys)
         hist["step_class|result"] = h
+    elif spec["kind"] == "imported":
+        n = imported_case(spec, keys)
+        hist["e2e_family"] = spec["family"]
     else:
         n = e2e_case(spec, keys)
         hist["e2e_family"] = spec["family"]
